@@ -86,30 +86,30 @@ fn nop_clone_h() {
 }
 
 // ---- K3: bounded cross-checks on real memory --------------------------------------------------
-type SV = AnyVec<dyn None, Stack<16>>;
 /// erased insert on a real Stack<16> vector of u32 (capacity 4), copy_bytes NOT replaced
-fn k3_insert_h() {
-    let x: [u32; 3] = kani::any();
-    let y: u32 = kani::any();
+fn k3_insert_h<T: Copy + PartialEq + kani::Arbitrary + 'static, const SIZE: usize>() {
+    let x: [T; 3] = kani::any();
+    let y: T = kani::any();
     let len: usize = kani::any();
     let index: usize = kani::any();
     kani::assume(len <= 3 && index <= len);
-    let mut v: SV = AnyVec::new::<u32>();
-    { let mut t = v.downcast_mut::<u32>().unwrap(); let mut i = 0; while i < 3 { if i < len { t.push(x[i]); } i += 1; } }
-    kani::assert(v.capacity() == 4, "Stack<16> of u32: capacity 4");
+    let mut v: AnyVec<dyn None, Stack<SIZE>> = AnyVec::new::<T>();
+    { let mut t = v.downcast_mut::<T>().unwrap(); let mut i = 0; while i < 3 { if i < len { t.push(x[i]); } i += 1; } }
+    kani::assert(v.capacity() == 4, "Stack<4 x size>: capacity 4");
     let mut yv = y;
-    let raw = unsafe { AnyValueRaw::new(core::ptr::NonNull::from(&mut yv).cast::<u8>(), 4, core::any::TypeId::of::<u32>()) };
+    let raw = unsafe { AnyValueRaw::new(core::ptr::NonNull::from(&mut yv).cast::<u8>(), size_of::<T>(), core::any::TypeId::of::<T>()) };
     v.insert(index, raw);
     kani::assert(v.len() == len + 1, "K3 insert: len' == len + 1");
     let j: usize = kani::any();
     kani::assume(j <= len);
-    let got = *v.downcast_ref::<u32>().unwrap().at(j);
+    let got = *v.downcast_ref::<T>().unwrap().at(j);
     let want = if j < index { x[j] } else if j == index { y } else { x[j - 1] };
     kani::assert(got == want, "K3 insert: the vector equals Vec::insert's result (real memory, real copy_bytes)");
     core::mem::forget(v);
     kani::cover!(index == 0 && len == 3, "COV front of full-1");
     kani::cover!(true, "REACHED");
 }
+type SV = AnyVec<dyn None, Stack<16>>;
 fn k3_remove_h() {
     let x: [u32; 4] = kani::any();
     let len: usize = kani::any();
